@@ -3,6 +3,7 @@
 package harness
 
 import (
+	"bytes"
 	"net/netip"
 	"strings"
 	"testing"
@@ -38,8 +39,20 @@ func c15Want(b []byte) [2]byte {
 func c15Check(tb drv.TB, rec *drv.Rec, sub string, b []byte) {
 	rec.Eval()
 	var got uint16
-	if p, sig, _ := drv.Catch(func() { got = packet.Checksum(b) }); p != nil {
+	// the bytes are summed where a message lies in practice: inside a larger buffer (spare capacity behind the slice);
+	// computing a checksum reads its input, it never writes - neither the input nor what lies behind it
+	room := make([]byte, len(b)+8)
+	copy(room, b)
+	for i := len(b); i < len(room); i++ {
+		room[i] = 0xa5
+	}
+	in := room[:len(b)]
+	if p, sig, _ := drv.Catch(func() { got = packet.Checksum(in) }); p != nil {
 		rec.Violation(tb, sub, sig, c15Case{b}, "Checksum panicked on %d bytes: %v", len(b), p)
+		return
+	}
+	if !bytes.Equal(room[:len(b)], b) || !bytes.Equal(room[len(b):], []byte{0xa5, 0xa5, 0xa5, 0xa5, 0xa5, 0xa5, 0xa5, 0xa5}) {
+		rec.Violation(tb, sub, "checksum-writes-its-input", c15Case{b}, "Checksum(%d bytes) changed the buffer it was given: now % x followed by % x", len(b), room[:min(len(b), 16)], room[len(b):])
 		return
 	}
 	if c15Stored(got) != c15Want(b) {
@@ -317,7 +330,7 @@ func TestC15(t *testing.T) {
 				A   int    `json:"a"`
 				ID  uint16 `json:"id"`
 				Seq uint16 `json:"seq"`
-			}{rapid.SampledFrom([]string{"echo4", "echo6", "echo6", "ns", "na", "rs", "ra"}).Draw(t, "k"), rapid.IntRange(0, 3).Draw(t, "a"), rapid.Uint16().Draw(t, "id"), rapid.Uint16().Draw(t, "seq")})
+			}{rapid.SampledFrom([]string{"echo4", "echo4", "echo6", "echo6", "ns", "na", "rs", "ra"}).Draw(t, "k"), rapid.IntRange(0, 7).Draw(t, "a"), rapid.Uint16().Draw(t, "id"), rapid.Uint16().Draw(t, "seq")})
 		}
 		c.Log = rapid.SampledFrom([]int{0, 0, 1, 2, 2}).Draw(t, "log")
 		return c
@@ -335,6 +348,16 @@ func TestC15(t *testing.T) {
 		for i, sd := range c.Sends {
 			cl := w.Clients[sd.A%4]
 			dst4 := packet.Addr{MAC: hw(cl), IP: netip.AddrFrom4([4]byte{192, 168, 0, byte(40 + sd.A)})}
+			switch sd.A { // group and broadcast destinations (ping-all): the header checksum covers whatever TTL these are sent with
+			case 4:
+				dst4 = packet.Addr{MAC: hw(ref.MAC{0x01, 0x00, 0x5e, 0, 0, 1}), IP: netip.MustParseAddr("224.0.0.1")}
+			case 5:
+				dst4 = packet.Addr{MAC: hw(ref.MAC{0xff, 0xff, 0xff, 0xff, 0xff, 0xff}), IP: netip.MustParseAddr("255.255.255.255")}
+			case 6:
+				dst4 = packet.Addr{MAC: hw(ref.MAC{0xff, 0xff, 0xff, 0xff, 0xff, 0xff}), IP: netip.MustParseAddr("192.168.0.255")}
+			case 7:
+				dst4 = packet.Addr{MAC: hw(ref.MAC{0x01, 0x00, 0x5e, 0, 0, 2}), IP: netip.MustParseAddr("224.0.0.2")}
+			}
 			lla := netip.MustParseAddr("fe80::40").As16()
 			lla[15] = byte(0x40 + sd.A)
 			dst6 := packet.Addr{MAC: hw(cl), IP: netip.AddrFrom16(lla)}
